@@ -7,6 +7,7 @@ declares them to denote ("S"); the spec, not this file, decides whether the libr
 """
 import os
 import re
+import sys
 
 from .core import cps, uncps, opt, guarded, clamp
 
@@ -600,6 +601,8 @@ def _pad(m, o):
             def py():
                 if len(f) != 1:
                     raise TypeError('fill')
+                if width > sys.maxsize:
+                    return t.center(width, f)       # str's own error for a width beyond the index range
                 n = max(0, width - len(t))
                 return f * (n // 2) + t + f * (n - n // 2)
         else:
